@@ -394,16 +394,21 @@ PROPS = {
                      "_distribute_power's contract is ASSUMED at its call sites (only its precondition is checked there)"],
     ),
     "C02": dict(
-        modules=["pd_distribution"],
+        modules=["pd_distribution", "pd_bounds"],
         contracts=[f"{ALGC}._distribute_multi_inverter_pairs", f"{ALGC}._inclusion_exclusion_bounds",
-                   f"{ALGC}._greedy_distribute_remaining_power"],
+                   f"{ALGC}._greedy_distribute_remaining_power",
+                   # admission: what reaches the distribution at all
+                   f"{BMGR}._get_bounds#one_group", f"{BMGR}._get_bounds#two_groups",
+                   f"{BMGR}._check_request#one_group", f"{BMGR}._check_request#two_groups"],
         lemmas=[],
         bounded=[dict(kind="native_script", name="distribute_power: per-inverter and per-group bounds, no-headroom groups (C02 clauses)",
                       module="native.explore_distribution")],
         level="other",
         explanation="PROVED (deductive): every set-point produced by the split over a set's inverters is zero or within that "
                     "inverter's [exclusion, inclusion] magnitudes; inverter inclusion bounds are clipped by the battery's; the "
-                    "greedy top-up never exceeds a set's inclusion bound. BOUNDED ONLY: group totals vs battery bounds and "
+                    "greedy top-up never exceeds a set's inclusion bound; admission (_check_request): a non-zero power strictly "
+                    "inside the enforced exclusion zone is rejected in both modes and, without adjust_power, so is any power "
+                    "outside the inclusion bounds. BOUNDED ONLY: group totals vs battery bounds and "
                     "'no SoC headroom => zero' on the main allocation (known findings C02-C, C02-D, C01-B).",
         assumptions=[REALS, EXTRACTION, "structural bound for the proved helpers: two battery groups (1 and 2 inverters)"],
     ),
